@@ -148,6 +148,22 @@ Theorem C19_one_result_partial : forall s k w, ereachable s -> nth_error (e_work
 Proof. exact one_result_partial. Qed.
 Print Assumptions C19_one_result_partial.
 
+(* the client's control calls follow its state: never started -> empty-engine error; stopped ->
+   in-shutdown error, for Dial / Enroll and for a further Stop, each without any effect on the
+   state; running -> exactly one register task is queued and the caller waits for it *)
+Theorem C19_client_calls_follow_state : forall s g, get_user s g = Some UIdle -> c_client (e_cfg s) = true ->
+  (e_started s = false -> forall li,
+     estep_opt s (TU g) (CCall (KCliEnroll li false)) = Some (s, [(TU g, KRes REmpty)])) /\
+  (e_started s = true -> e_insd s = true -> forall li,
+     estep_opt s (TU g) (CCall (KCliEnroll li false)) = Some (s, [(TU g, KRes RInShutdown)])) /\
+  (e_started s = true -> e_insd s = false -> forall li l, get_loop s li = Some l ->
+     estep_opt s (TU g) (CCall (KCliEnroll li false)) =
+       Some (put_user (set_next (trigger s li (TReg (e_next s) (OUser g))) (e_next s + 1)) g (UEnrollWait false), [])) /\
+  (e_insd s = true -> estep_opt s (TU g) (CCall KCliStop) = Some (s, [(TU g, KRes RInShutdown)])) /\
+  (e_insd s = false -> estep_opt s (TU g) (CCall KCliStop) = None).
+Proof. exact client_calls_follow_state. Qed.
+Print Assumptions C19_client_calls_follow_state.
+
 (* what a waiting registration waits for: its task is queued on its loop *)
 Theorem C19_registration_queued : forall s k w, ereachable s ->
   nth_error (e_workers s) k = Some w -> w_pc w = WWait -> w_opened w = false ->
@@ -209,4 +225,26 @@ Example C19_ex_stopped :
   phase_s ex_stopped = PShutdown /\ returned ex_stopped = true /\
   map snd (e_hist ex_stopped) =
     [KRes (RCount (-1)); KRes RInShutdown; KRes RInShutdown; KRet; KShutdown; KRes RCtxErr; KBoot].
+Proof. vm_compute. repeat split. Qed.
+
+(* a client: Dial before Start, Start, Dial (served by the loop), Client.Stop, then Dial and two
+   further Stops on the stopped client: the three refusals change nothing *)
+Definition ex_ccfg : config := mkCfg true 0 false false 1.
+Definition ex_client_steps : list (tid * choice) :=
+  [ (TU 0, CCall (KCliEnroll 0 false));
+    (TR, CBoot ANone); (TR, CNone); (TR, CNone);
+    (TU 0, CCall (KCliEnroll 0 false)); (TL 0, CRun 0 h_none); (TU 0, CNone);
+    (TR, CClientStop); (TR, CNone); (TR, CNone); (TR, CNone);
+    (TL 0, CRun 0 h_none); (TL 0, CNone); (TL 0, CNone); (TL 0, CNone);
+    (TR, CNone); (TR, CNone); (TR, CNone); (TR, CNone) ].
+Definition ex_client_stopped : estate := fst (run estep (einit ex_ccfg 2) ex_client_steps).
+Definition ex_client_after : estate :=
+  fst (run estep ex_client_stopped
+         [ (TU 1, CCall (KCliEnroll 0 false)); (TU 0, CCall KCliStop); (TU 1, CCall KCliStop) ]).
+Example C19_ex_client :
+  e_insd ex_client_stopped = true /\ returned ex_client_stopped = true /\
+  map snd (e_hist ex_client_stopped) = [KRet; KClose 0; KShutdown; KRes RNil; KOpen 0; KBoot; KRes REmpty] /\
+  map snd (e_hist ex_client_after) =
+    [KRes RInShutdown; KRes RInShutdown; KRes RInShutdown] ++ map snd (e_hist ex_client_stopped) /\
+  set_hist ex_client_after [] = set_hist ex_client_stopped [].
 Proof. vm_compute. repeat split. Qed.
